@@ -7,6 +7,7 @@ from ..source import norm, const_value, walk_no_nested
 from ..specs import operators as optab
 from . import coretypes as ct
 from . import array_folds as af
+from . import core_folds as cf
 from .common import (calls_in, is_name, params, single_return, root_name, returns_of, stores_in, flatten_targets,
                      attr_chain, bind_call)
 
@@ -53,174 +54,17 @@ def r2_out(run, tree):
 
 
 def r3_rhs_not_written(run, tree):
-    run.rule("C17.R3", "the right operand is never written", "effect rule", "", floor=2)
-    for q in (ct.BINOP, VBINOP):
-        fi = tree.func(q)
-        run.analysed(fi)
-        pn = params(fi)
-        R = pn[2]
-        bad = []
-        for tgt, st in stores_in(fi.node):
-            for t in flatten_targets(tgt):
-                if isinstance(t, (ast.Attribute, ast.Subscript)) and root_name(t) == R:
-                    bad.append(st)
-        for n in walk_no_nested(fi.node):
-            if isinstance(n, ast.Call) and isinstance(n.func, ast.Attribute) and root_name(n.func.value) == R and \
-                    n.func.attr in ct.MUTATORS:
-                bad.append(n)
-            if isinstance(n, ast.Call):
-                for k in n.keywords:
-                    if k.arg == "out" and root_name(k.value) == R:
-                        bad.append(n)
-        run.ob(q + "::rhs-not-written", not bad, fi.where(bad[0]) if bad else fi.where(),
-               "stores through %s: %s" % (R, norm(bad[0])[:80] if bad else "none"), "x += y modifies y")
-
-
-def _is_copy_of(expr, chain_root, attr=None):
-    """expr is <chain>.copy() or np.copy(<chain>) / np.array(<chain>, copy=True)"""
-    if isinstance(expr, ast.Call):
-        f = expr.func
-        if isinstance(f, ast.Attribute) and f.attr in ("copy", "__copy__", "__deepcopy__") and not isinstance(f.value, ast.Name) \
-                or (isinstance(f, ast.Attribute) and f.attr == "copy" and isinstance(f.value, ast.Name) and f.value.id not in
-                    ("np", "numpy", "copy")):
-            return root_name(f.value) == chain_root
-        if isinstance(f, ast.Attribute) and f.attr in ("copy", "array", "deepcopy") and isinstance(f.value, ast.Name) and \
-                f.value.id in ("np", "numpy", "copy") and expr.args:
-            if f.attr == "array" and any(k.arg == "copy" and const_value(k.value) is False for k in expr.keywords):
-                return False
-            return root_name(expr.args[0]) == chain_root
-    return False
+    run.rule("C17.R3", "the right operand is never written (Array and Vector binary operators, every operand kind)",
+             "D7 folds of _binary_op (core/array.py) and of the Vector operators: operand state before/after", "", floor=10)
+    af.check_binary_op_fold(run, tree)
+    cf.check_vector_lifting(run, tree, ["__iadd__", "__isub__", "__imul__", "__itruediv__", "__add__", "__mul__"], want_kinds=False)
 
 
 def r4_deep_copies(run, tree):
-    run.rule("C17.R4", "copy()/deepcopy of Array and Vector allocate fresh buffers", "origin rule", "", floor=5)
-    # Array.copy
-    ci = tree.cls(ARRAY)
-    fi = tree.method(ci, "copy")
-    construct = ARRAY + ".copy"
-    if fi is None:
-        run.violated(construct, ci.module.rel, "Array.copy is not defined", "copy.copy(a)")
-    else:
-        run.analysed(fi)
-        ret = single_return(fi)
-        ok, detail = False, "body is not a single constructor call"
-        if isinstance(ret, ast.Call):
-            vals = None
-            for k in ret.keywords:
-                if k.arg == "values":
-                    vals = k.value
-            if vals is None and ret.args:
-                vals = ret.args[0]
-            ok = vals is not None and _is_copy_of(vals, params(fi)[0])
-            detail = "values=%s" % (norm(vals) if vals is not None else "?")
-            unit = [k.value for k in ret.keywords if k.arg == "unit"]
-            name = [k.value for k in ret.keywords if k.arg == "name"]
-            run.ob(construct + "::unit-and-name", bool(unit) and bool(name) and "unit" in norm(unit[0]) and "name" in norm(name[0]),
-                   fi.where(), "copy carries unit=%s name=%s" % (norm(unit[0]) if unit else "-", norm(name[0]) if name else "-"),
-                   "a.copy() loses the unit or the name", nontrivial=False)
-        run.ob(construct + "::fresh-buffer", ok, fi.where(), detail,
-               "b = a.copy(); b *= 2 changes a (or a later in-place update of a shows through b)")
-    # Vector.copy
-    vi = tree.cls(VECTOR)
-    fi = tree.method(vi, "copy")
-    construct = VECTOR + ".copy"
-    if fi is None:
-        run.violated(construct, vi.module.rel, "Vector.copy is not defined", "copy.copy(v)")
-    else:
-        run.analysed(fi)
-        ret = single_return(fi)
-        ok = False
-        if isinstance(ret, ast.Call):
-            for k in ret.keywords:
-                if k.arg is None and isinstance(k.value, ast.DictComp):
-                    dc = k.value
-                    g = dc.generators[0]
-                    over_all = norm(g.iter) == "%s._xyz.items()" % params(fi)[0] and not g.ifs
-                    tv = g.target.elts[1].id if isinstance(g.target, ast.Tuple) and len(g.target.elts) == 2 and isinstance(
-                        g.target.elts[1], ast.Name) else None
-                    ok = over_all and tv is not None and _is_copy_of(dc.value, tv)
-        run.ob(construct + "::every-component-copied", ok, fi.where(), "returns %s" % (norm(ret)[:90] if ret is not None else "?"),
-               "w = v.copy(); w.x *= 2 changes v.x")
-    # Base.__copy__/__deepcopy__
-    base = tree.cls("core/base.py::Base")
-    for m in ("__copy__", "__deepcopy__"):
-        fi = tree.method(base, m)
-        construct = "core/base.py::Base.%s" % m
-        if fi is None:
-            # default copy.copy would share the buffer
-            run.violated(construct, base.module.rel, "%s is not defined: the copy module's default %s" % (
-                m, "shares the buffer" if m == "__copy__" else "is used"), "copy.copy(a) shares data with a")
-            continue
-        ret = single_return(fi)
-        ok = isinstance(ret, ast.Call) and isinstance(ret.func, ast.Attribute) and ret.func.attr == "copy" and is_name(
-            ret.func.value, params(fi)[0]) and not ret.args
-        run.ob(construct, ok, fi.where(), "returns %s" % (norm(ret) if ret is not None else "?"),
-               "copy.%s(a) is not independent of a" % ("copy" if m == "__copy__" else "deepcopy"))
-    # the classes themselves must not override them with something shallower
-    for cq in (ARRAY, VECTOR):
-        c = tree.cls(cq)
-        for m in ("__copy__", "__deepcopy__"):
-            if m in c.methods:
-                ret = single_return(c.methods[m])
-                ok = isinstance(ret, ast.Call) and isinstance(ret.func, ast.Attribute) and ret.func.attr == "copy"
-                run.ob("%s.%s" % (cq, m), ok, c.methods[m].where(), "override returns %s" % (norm(ret) if ret is not None else "?"),
-                       "deepcopy not independent")
-    # containers: deepcopy must be the default (recursive) one or an explicit deep one
-    for cq in ("core/datagroup.py::Datagroup", "core/dataset.py::Dataset", "io/ramses.py::RamsesDataset"):
-        try:
-            c = tree.cls(cq)
-        except Exception:
-            continue
-        if "__deepcopy__" in c.methods:
-            fi = c.methods["__deepcopy__"]
-            src = " ".join(norm(s) for s in fi.node.body)
-            ok = "deepcopy" in src
-            run.ob(cq + ".__deepcopy__", ok, fi.where(), "custom __deepcopy__ %s" % (
-                "recurses with deepcopy" if ok else "does not deep-copy the members: " + src[:80]),
-                   "deepcopy(group)['a'] *= 2 changes group['a']")
-        else:
-            run.holds(cq + ".__deepcopy__", c.module.rel, "no custom __deepcopy__: copy.deepcopy recurses into the members, "
-                      "whose __deepcopy__ is copy()", nontrivial=False)
-
-
-def r5_shallow_container_copies(run, tree):
-    run.rule("C17.R5", "container copy() is shallow: the same member objects are re-inserted", "origin rule", "", floor=2)
-    dg = tree.cls("core/datagroup.py::Datagroup")
-    fi = tree.method(dg, "copy")
-    construct = "core/datagroup.py::Datagroup.copy"
-    if fi is None:
-        run.violated(construct, dg.module.rel, "copy not defined", "group.copy()")
-    else:
-        run.analysed(fi)
-        ret = single_return(fi)
-        ok, detail = False, norm(ret)[:90] if ret is not None else "?"
-        if isinstance(ret, ast.Call):
-            src = norm(ret)
-            deep = any(isinstance(n, ast.Call) and isinstance(n.func, ast.Attribute) and n.func.attr in
-                       ("copy", "deepcopy", "__deepcopy__") for n in ast.walk(ret) if n is not ret)
-            covers = "%s.items()" % params(fi)[0] in src or "%s._container" % params(fi)[0] in src
-            nofilter = not any(isinstance(n, ast.comprehension) and n.ifs for n in ast.walk(ret))
-            ok = (not deep) and covers and nofilter
-            detail = "%s%s%s" % (src[:90], "; members are copied" if deep else "", "" if covers and nofilter else
-                                 "; not all members are carried over")
-        run.ob(construct, ok, fi.where(), detail, "g2 = g.copy(); g2['a'] *= 2 is not seen through g['a'] (copy() of a "
-               "container is documented shallow), or a member is missing from the copy")
-    ds = tree.cls("core/dataset.py::Dataset")
-    fi = tree.method(ds, "copy")
-    construct = "core/dataset.py::Dataset.copy"
-    if fi is None:
-        run.violated(construct, ds.module.rel, "copy not defined", "dataset.copy()")
-    else:
-        run.analysed(fi)
-        src = " ".join(norm(s) for s in fi.node.body)
-        deep = ".copy()" in src.replace("meta.copy()", "") or "deepcopy" in src
-        covers = "%s.items()" % params(fi)[0] in src or "%s.groups" % params(fi)[0] in src
-        meta = "meta.copy()" in src or "dict(%s.meta)" % params(fi)[0] in src
-        run.ob(construct, (not deep) and covers, fi.where(), "groups %s; %s" % (
-            "copied (not shallow)" if deep else "shared", "all groups carried" if covers else "groups not carried over"),
-               "ds2 = ds.copy(); ds2['mesh']['a'] *= 2 not visible through ds")
-        run.ob(construct + "::meta", meta, fi.where(), "meta %s" % ("copied" if meta else "shared or dropped"),
-               "ds.copy().meta['x'] = 1 changes ds.meta")
+    run.rule("C17.R4", "copy()/copy.copy/deepcopy of Array and Vector allocate fresh buffers; deepcopy of containers is independent; "
+             "container copy() is shallow (same member objects, new container, own metadata dict)",
+             "D7 fold of the copy methods and of the copy protocol (__copy__/__deepcopy__ resolved through the MRO) over buffer tokens", "", floor=12)
+    cf.check_copies_fold(run, tree)
 
 
 def r6_views(run, tree):
@@ -233,4 +77,4 @@ def r6_views(run, tree):
     cf.check_group_copy(run, tree)
 
 
-RULES = [r1_inplace_twins, r2_out, r3_rhs_not_written, r4_deep_copies, r5_shallow_container_copies, r6_views]
+RULES = [r1_inplace_twins, r2_out, r3_rhs_not_written, r4_deep_copies, r6_views]
